@@ -504,23 +504,25 @@ def _depth(t) -> int:
 
 # ---------------------------------------------------------------------------------------------- streams
 
-def replay_input(ctx, inp: Dict[str, Any]) -> List[Tuple[Dict[str, Any], Dict[str, Any], Optional[str]]]:
-    cases = inp["cases"] if "cases" in inp else [inp]
-    return evaluate(ctx, [("finding", c) for c in cases], report=False)
-
-
 def findings_stream(ctx):
-    for e in ctx.known_entries("known"):
-        bad = replay_input(ctx, e["input"])
-        ctx.count("findings:known-replayed")
-        if bad:
-            c, r, why = bad[0]
+    entries = ctx.known_entries("known") + ctx.known_entries("fixed")
+    cases, owner = [], []
+    for e in entries:
+        for c in (e["input"]["cases"] if "cases" in e["input"] else [e["input"]]):
+            cases.append(("finding", c))
+            owner.append(e)
+    bad = evaluate(ctx, cases, report=False)
+    failing = {id(c): (r, why) for c, r, why in bad}
+    done = set()
+    for (_, c), e in zip(cases, owner):
+        ctx.count("findings:%s-replayed" % e["status"])
+        if id(c) not in failing or e["key"] in done:
+            continue
+        done.add(e["key"])
+        r, why = failing[id(c)]
+        if e["status"] == "known":
             ctx.violation(key=e["key"], what=why, case=c, observed=brief(r), how=HOW[c["kind"]])
-    for e in ctx.known_entries("fixed"):
-        bad = replay_input(ctx, e["input"])
-        ctx.count("findings:fixed-replayed")
-        if bad:
-            c, r, why = bad[0]
+        else:
             ctx.violation(key="regressed:" + e["key"], what="REGRESSION of a repaired defect (" + e["what"] + "): " + why,
                           case=c, observed=brief(r), how=HOW[c["kind"]])
 
